@@ -591,6 +591,23 @@ func (c *checker) runCase(k *caseCtx) {
 			if h1 != libConv {
 				k.viol("leafhash-bytes", fmt.Sprintf("LeafHash %x, reference %x", h1, libConv))
 			}
+			// the same final certificate presented under another issuer certificate is another entry
+			// (other issuer_key_hash): its hash differs, the SCT does not verify for it, and asking
+			// about it changes nothing for the real issuer (sequence real, other, real)
+			k.stage = "ctutil.LeafHash(same certificate, other issuer)"
+			oe := entries["ok"]
+			oe.IssuerKeyHash = pki.LoadKey("p256-0").KeyHash() // the root's key
+			chainO := []*x509.Certificate{chainF[0], px.root}
+			ho, eo := ctutil.LeafHash(chainO, b.lib, true)
+			if eo != nil || ho != ref.LeafHash(refLeaf(b.ts, oe, nil)) {
+				k.viol("leafhash-bytes same-certificate-other-issuer", fmt.Sprintf("LeafHash([final, other issuer]) = %x err=%v, reference %x (the real issuer's entry hashes to %x)", ho, eo, ref.LeafHash(refLeaf(b.ts, oe, nil)), libConv))
+			}
+			if s.realSig && ctutil.VerifySCT(pub, chainO, b.lib, true) == nil {
+				k.viol("verify-embedded accepts wrong-sct kind=other-issuer-certificate", fmt.Sprintf("SCT %s verified for the same certificate under another issuer", b.spec))
+			}
+			if h3, e3 := ctutil.LeafHash(chainF, b.lib, true); e3 != nil || h3 != h1 {
+				k.viol("leafhash-bytes after-other-issuer", fmt.Sprintf("LeafHash for the real issuer changed after a call with another issuer: %x then %x (err=%v)", h1, h3, e3))
+			}
 		} else {
 			// RFC 6962 s3.4 puts the SCT's extensions into the leaf. Not part of the
 			// statement checked here: counted, never an alarm.
